@@ -311,7 +311,7 @@ func checkTypeSystem(c *core.Ctx, orderProp bool) {
 			map[string]any{"what": b.Class, "sources": sourcesJSON(v.Sources), "violated": b.Violated, "observed": l})
 	}
 	if intentBad > 0 && len(bad) == 0 {
-		c.Internal("generator and specification disagree on %d cases although the loader agrees with the specification (see intent_* in the evidence)", intentBad)
+		c.Diagnostic("generator intent disagrees with specification AND loader on %d cases (see intent_* in the evidence): the generator is the weakest of the three witnesses, so this is no verdict", intentBad)
 	}
 }
 
